@@ -264,6 +264,28 @@ class Check:
             data = json.load(fh)
         return [e for e in data.get("findings", []) if e.get("property") == self.prop_id]
 
+    def confirm_known(self, fid, clause, inputs):
+        """an open finding: re-confirm its recorded witness natively and print the KNOWN-FINDING line; a failure of the same
+        clause that is NOT tagged with this finding is a new violation"""
+        entries = [e for e in self.load_known() if e.get("id") == fid and e.get("status") == "open"]
+        if not entries:
+            return
+        nat = self.native("replay", clause, inputs)
+        self.native_evals += 1
+        if nat.get("status") == "fail" and nat.get("finding") == fid:
+            line = "%s [witness: %s]" % (entries[0].get("what"), nat.get("message", ""))
+            if line not in self.known:
+                self.known.append(line)
+        elif nat.get("status") == "fail":
+            path = self.write_replay(None, nat.get("inputs"), nat, True)
+            self.violations.append((clause, path, True))
+            print("FAILED native clause %s: %s" % (clause, nat.get("message", "")))
+            print("VIOLATION property=%s replay=%s" % (self.prop_id, os.path.relpath(path, VERIF)))
+        elif nat.get("status") == "pass":
+            self.notes.append("listed finding %s no longer reproduces on this tree" % fid)
+        else:
+            self.unsupported.append((clause, "native confirmation of %s failed to run: %s" % (fid, nat.get("error"))))
+
     # ------------------------------------------------------------------ reporting
     def write_replay(self, o, inputs, native_result, reproduced):
         os.makedirs(os.path.join(VERIF, "replays"), exist_ok=True)
@@ -370,10 +392,14 @@ class Check:
         return exit_code
 
     def matches_known(self, open_known, o, nat):
-        """a natively reproduced failure is a listed finding iff the native side tags it with that finding's id"""
+        """a natively reproduced failure is a listed finding iff the native side tags it with that finding's id
+        (the native clause decides the tag from the failing input, so a different failure of the same clause is not excused)"""
         tag = (nat or {}).get("finding")
         for e in open_known:
             if tag is not None and tag == e.get("id"):
+                line = "%s [witness: %s]" % (e.get("what"), (nat or {}).get("message", ""))
+                if line not in self.known:
+                    self.known.append(line)
                 return True
         return False
 
